@@ -17,7 +17,6 @@
 package jsonproto
 
 import (
-	"bytes"
 	"encoding/binary"
 	"io"
 	"strconv"
@@ -93,9 +92,7 @@ func (j *jsonproto) Pack(m erpc.Message) error {
 	bb.Write(msg6)
 	bb.WriteString(strconv.FormatInt(int64(m.BodyCodec()), 10))
 	bb.Write(msg7)
-	// the body is embedded in a JSON string: escape backslashes as well as quotes
-	bodyBytes = bytes.Replace(bodyBytes, []byte{'\\'}, []byte{'\\', '\\'}, -1)
-	bb.Write(bytes.Replace(bodyBytes, []byte{'"'}, []byte{'\\', '"'}, -1))
+	bb.Write(escapeBody(bodyBytes))
 	bb.Write(msg8)
 
 	// do transfer pipe
@@ -116,6 +113,24 @@ func (j *jsonproto) Pack(m erpc.Message) error {
 	copy(all[4+1+xferPipeLen:], b)
 	_, err = j.rw.Write(all)
 	return err
+}
+
+// escapeBody escapes the body bytes so that they can be embedded in a JSON string:
+// quotes, backslashes and control characters.
+func escapeBody(b []byte) []byte {
+	const hex = "0123456789abcdef"
+	out := make([]byte, 0, len(b)+16)
+	for _, c := range b {
+		switch {
+		case c == '"' || c == '\\':
+			out = append(out, '\\', c)
+		case c < 0x20:
+			out = append(out, '\\', 'u', '0', '0', hex[c>>4], hex[c&0xf])
+		default:
+			out = append(out, c)
+		}
+	}
+	return out
 }
 
 // Unpack reads bytes from the connection to the Message.
